@@ -93,7 +93,9 @@ def PcOK (c : Cfg) (o : Orders) (s : State) (t : Nat) : Prop :=
       (∃ msg, (s.mem.hist (.slot i))[s.mem.len (.slot i) - 1]? = some msg ∧ msg.val = v)
   | .ul0 i => s.own i = .held t ∧ 1 ≤ s.lt i
   | .ul1 i => s.own i = .held t ∧ s.lt i = 1
-  | .rl0 i => s.own i = .held t ∧ s.lt i = 0 ∧ s.fv i = none
+  | .rl0 i => s.own i = .held t
+  | .rl1 i => s.own i = .held t ∧ 1 ≤ s.lt i
+  | .rl2 i => s.own i = .held t ∧ s.lt i = 0 ∧ s.fv i = none
   | .tk0 => True
   | .tk1 e => (∃ f, o.tickFence = some f) ∧ 1 ≤ e ∧ e < s.mem.len .gver ∧ s.pv e ≤ s.cur t
   | .sc0 => s.sv t ≤ s.cur t
